@@ -61,7 +61,6 @@ def run(ctx):
         sb.validate(ctx, t, "C11_")
     if kdrift:
         raise vlib.Infra(kdrift)
-    ctx.cov["evaluations"] += nrandom
     ctx.cov["edges_replayed_on_impl"] = len(scheds)
     ctx.cov["exhaustive"] = not ctx.quick
     ctx.cov["model_predictions"] = sorted(set(pred1 + pred2))
